@@ -31,6 +31,14 @@ type Ctx struct {
 	start   time.Time
 }
 
+// NBatchOr1: number of batches of this batch's mode (at least 1).
+func (c *Ctx) NBatchOr1() int {
+	if c.MNBatch > 0 {
+		return c.MNBatch
+	}
+	return 1
+}
+
 func (c *Ctx) Thorough() bool { return c.Tier == "thorough" }
 func (c *Ctx) Rng(stream string) gen.R {
 	return gen.New(c.Seed, c.Prop+"/"+stream, c.Batch)
